@@ -12,6 +12,13 @@ package main
 //     the three listener adapters (for every change kind: `go f(x)` when the registered type is
 //     asynchronous, `f(x)` otherwise).
 //
+//   - how the error holder travels (C07): newIndexingContext chains the parent store's context with the
+//     same holder; IndexingContext.ProcessBeforeUpdate / ProcessAfterUpdate / ProcessBeforeDelete run the
+//     parent's context first and their own constraints only `if !ctx.ErrHolder.HasError()`;
+//     PersistContext.GetParentContext lets the parent bucket record into the child bucket's holder;
+//     ProceedWithSet refuses to write while the holder has an error; the order of the stages in Create /
+//     Update / processDeleteConstraints (boltz/indexes.go, base.go, typed_bucket.go, store_crud.go).
+//
 // Output: Generated/CrudReturns.lean (the model's table and the delivery facts, about which the C07 /
 // C08 theorems are stated) and facts/returns.json (the same, readable).
 
@@ -31,6 +38,7 @@ import (
 type retFacts struct {
 	Sites      map[string]string `json:"sites"`
 	Flags      map[string]bool   `json:"flags"`
+	Holder     map[string]bool   `json:"holder"`
 	Adapters   []string          `json:"adapters"`
 	Recognised bool              `json:"recognised"`
 	Notes      []string          `json:"notes,omitempty"`
@@ -332,7 +340,8 @@ func extractReturns(repo, gen, facts string) {
 	}
 	crud, store, db, txc := parse("store_crud.go"), parse("store.go"), parse("db.go"), parse("tx_context.go")
 	files := []*ast.File{crud, store, db, txc}
-	rf := &retFacts{Sites: map[string]string{}, Flags: map[string]bool{}, Recognised: true}
+	holderFiles := []*ast.File{crud, parse("base.go"), parse("indexes.go"), parse("typed_bucket.go")}
+	rf := &retFacts{Sites: map[string]string{}, Flags: map[string]bool{}, Holder: map[string]bool{}, Recognised: true}
 	c := &retCtx{fset: fset, facts: rf}
 	need := func(recv, name string) *ast.FuncDecl {
 		fd := findFunc(files, recv, name)
@@ -475,6 +484,99 @@ func extractReturns(repo, gen, facts string) {
 		rf.Flags[name+"PreCommitNil"] = len(pre.Body.List) == 1 && c.text(pre.Body.List[0]) == "return nil"
 	}
 
+	// ---- how the error holder travels
+	needH := func(recv, name string) *ast.FuncDecl {
+		fd := findFunc(holderFiles, recv, name)
+		if fd == nil {
+			c.note("function %s.%s not found", recv, name)
+			return &ast.FuncDecl{Name: ast.NewIdent(name), Body: &ast.BlockStmt{}}
+		}
+		return fd
+	}
+	topIndex := func(fd *ast.FuncDecl, pattern string) int {
+		for i, st := range fd.Body.List {
+			if strings.Contains(c.text(st), pattern) {
+				return i
+			}
+		}
+		return -1
+	}
+	ordered := func(fd *ast.FuncDecl, patterns ...string) bool {
+		last := -1
+		for _, p := range patterns {
+			i := topIndex(fd, p)
+			if i < 0 || i <= last {
+				return false
+			}
+			last = i
+		}
+		return true
+	}
+	h := rf.Holder
+	nic := needH("BaseStore", "newIndexingContext")
+	nicText := c.text(nic.Body)
+	h["newIndexingContextChainsParentWithSameHolder"] = strings.Contains(nicText, "if store.parent != nil { parentContext = store.parent.newIndexingContext(isCreate, ctx, id, holder) }") &&
+		strings.Contains(nicText, "Parent: parentContext,") && strings.Contains(nicText, "ErrHolder: holder,")
+	for _, stage := range []string{"ProcessBeforeUpdate", "ProcessAfterUpdate", "ProcessBeforeDelete"} {
+		fd := needH("IndexingContext", stage)
+		want := "{ if ctx.Parent != nil { ctx.Parent." + stage + "() } if !ctx.ErrHolder.HasError() { for _, index := range ctx.constraints { index." + stage + "(ctx) } } }"
+		h["indexingContext"+stage+"ParentFirstThenOwnUnlessError"] = c.text(fd.Body) == want
+	}
+	h["typedBucketProceedWithSetChecksHolder"] = strings.HasPrefix(c.text(needH("TypedBucket", "ProceedWithSet").Body), "{ return bucket.Err == nil && ")
+	h["persistContextProceedWithSetAsksBucket"] = c.text(needH("PersistContext", "ProceedWithSet").Body) == "{ return ctx.Bucket.ProceedWithSet(field, ctx.FieldChecker) }"
+	settersGuarded := true
+	for _, name := range []string{"SetString", "SetStringP", "SetStringList"} {
+		fd := needH("TypedBucket", name)
+		ok := false
+		if len(fd.Body.List) == 2 {
+			if is, isIf := fd.Body.List[0].(*ast.IfStmt); isIf && is.Init == nil && is.Else == nil &&
+				strings.HasPrefix(c.text(is.Cond), "bucket.ProceedWithSet(name, ") && c.text(fd.Body.List[1]) == "return bucket" {
+				ok = true
+			}
+		}
+		settersGuarded = settersGuarded && ok
+	}
+	h["typedBucketSettersWriteOnlyIfProceedWithSet"] = settersGuarded
+	h["updateBeforeUpdateThenPersistThenAfterUpdate"] = ordered(update,
+		"indexingContext := store.newIndexingContext(false, ctx, entity.GetId(), bucket)",
+		"indexingContext.ProcessBeforeUpdate()",
+		"store.entityStrategy.PersistEntity(entity, persistCtx)",
+		"indexingContext.ProcessAfterUpdate()") && strings.Contains(c.text(update.Body), "Bucket: bucket,")
+	h["createPersistThenHolderCheckThenAfterUpdate"] = ordered(create,
+		"indexingContext := store.newIndexingContext(true, ctx, entity.GetId(), bucket)",
+		"store.entityStrategy.PersistEntity(entity, persistCtx)",
+		"if bucket.HasError() {",
+		"indexingContext.ProcessAfterUpdate()") && strings.Contains(c.text(create.Body), "Bucket: bucket,")
+	h["deleteConstraintsBeforeDeleteOnFreshHolder"] = ordered(pdc,
+		"errHolder := &errorz.ErrorHolderImpl{}",
+		"indexingContext := store.newIndexingContext(false, ctx, id, errHolder)",
+		"indexingContext.ProcessBeforeDelete()",
+		"return changeFlow, errHolder.")
+	persistShares := "unknown"
+	for _, sp := range allStmts(needH("PersistContext", "GetParentContext").Body) {
+		if as, ok := sp.list[sp.idx].(*ast.AssignStmt); ok && strings.Contains(c.text(as), "ErrorHolderImpl") {
+			switch c.text(as) {
+			case "result.Bucket.ErrorHolderImpl = ctx.Bucket.ErrorHolderImpl":
+				persistShares = "true"
+			case "ctx.Bucket.ErrorHolderImpl = result.Bucket.ErrorHolderImpl":
+				persistShares = "false"
+			default:
+				persistShares = "unknown"
+			}
+			break
+		}
+	}
+	if persistShares == "unknown" {
+		c.note("PersistContext.GetParentContext: no reading for how the error holder is shared")
+		persistShares = "false"
+	}
+	s["persistSharesHolder"] = persistShares
+	for k, v := range h {
+		if !v {
+			c.note("holder plumbing: %s does not have the modelled shape", k)
+		}
+	}
+
 	// ---- Lean
 	ret := func(key string) string {
 		switch s[key] {
@@ -527,6 +629,7 @@ func extractReturns(repo, gen, facts string) {
 	lines = append(lines, fmt.Sprintf("    queueAfterVeto := %v", rf.Flags["queueAfterVeto"]))
 	lines = append(lines, "    preCommitLoop := "+ret("preCommitLoop"))
 	lines = append(lines, "    parentEventReturn := "+ret("parentEventReturn"))
+	lines = append(lines, "    persistSharesHolder := "+s["persistSharesHolder"])
 	fmt.Fprintf(&b, "def crudReturns : CrudReturns :=\n  { recognised := %v\n%s }\n\n", rf.Recognised, strings.Join(lines, "\n"))
 
 	flagNames := make([]string, 0, len(rf.Flags))
@@ -541,6 +644,19 @@ func extractReturns(repo, gen, facts string) {
 			b.WriteString(",\n   ")
 		}
 		fmt.Fprintf(&b, "(%q, %v)", k, rf.Flags[k])
+	}
+	holderNames := make([]string, 0, len(rf.Holder))
+	for k := range rf.Holder {
+		holderNames = append(holderNames, k)
+	}
+	sort.Strings(holderNames)
+	b.WriteString("]\n\n/-- how the error holder travels: chained indexing contexts, stage order, ProceedWithSet -/\n")
+	b.WriteString("def holderFlags : List (String × Bool) :=\n  [")
+	for i, k := range holderNames {
+		if i > 0 {
+			b.WriteString(",\n   ")
+		}
+		fmt.Fprintf(&b, "(%q, %v)", k, rf.Holder[k])
 	}
 	b.WriteString("]\n\ndef adapterShapes : List String :=\n  [")
 	for i, a := range rf.Adapters {
